@@ -31,3 +31,9 @@ check('C07',
       'Executor + evolve() ordering kernel only: failures inside Django migration executor, multi-batch runs and non-SQLite back ends are outside; lists with explicit transaction groups are only checked for group atomicity. Trusted: CrossHair+z3, SQLite/Django as concrete environment.',
       'CrossHair symbolic execution (z3) of utils/sql.py SQLExecutor over a symbolic fault index against real SQLite; counterexamples replayed concretely',
       design_ref='5.6')
+
+check('C18',
+      'Merge-decision kernel: (a) z3 query over the mergeable_ops table and the dispatcher op types re-extracted with ast from db/common.py on every run (no pair of add/change/delete/meta op types may be rejected; no table entry may be unknown to the dispatcher); (b) bounded model checking of the real generate_table_ops_sql/_are_ops_mergeable over all op-type sequences of length <=4 with recording op builders: each maximal run of mergeable ops shares one AlterTableSQLResult.',
+      'Per-op SQL builders and the AlterTableSQLResult class are recording stand-ins; rebuild counts on real SQL traces and the optimiser regrouping are not part of this claim (see C03 and the C01/C02 engine). Trusted: CrossHair+z3, ast extraction.',
+      'z3 on the source-extracted mergeable_ops table + CrossHair symbolic execution (z3) of generate_table_ops_sql with symbolic op sequences',
+      design_ref='5.15')
